@@ -140,8 +140,8 @@ class Observer:
     # -- raw snapshot of the guarded fields (objects, not ids)
     def _raw(self):
         z = self.z
-        return (z._write_txn, z._write_event, tuple(z._write_waiters), len(z._versions), z._versions[-1], z.nodes,
-                frozenset(z._readers))
+        return (z._write_txn, z._write_event, tuple(z._write_waiters), len(z._versions),
+                z._versions[-1] if z._versions else None, z.nodes, frozenset(z._readers))
 
     def new_event(self, ev):
         self.events.append(ev)
@@ -156,11 +156,11 @@ class Observer:
         z = self.z
         txn = z._write_txn
         owner = None if txn is None else self.txn_owner.get(id(txn), "?")
-        last = z._versions[-1]
+        last = z._versions[-1] if z._versions else None
         readers = sorted(self.reader_of.get(id(r), 99) for r in z._readers)
         return ("L" + so(self.lock.holder) + "T" + so(owner) + "E" + so(self.evid(z._write_event)) + "W"
                 + sl(self.evid(e) for e in z._write_waiters) + "S" + sl(e.id for e in self.events if e.flag)
-                + "V" + str(last.id) + ":" + sl(content_of(last.nodes)) + "N" + sl(content_of(z.nodes)) + "R" + sl(readers))
+                + "V" + (str(last.id) + ":" + sl(content_of(last.nodes)) if last is not None else "none") + "N" + sl(content_of(z.nodes)) + "R" + sl(readers))
 
     def emit(self, tid, label, suffix=""):
         self.recs.append(f"{tid}:{label}")
@@ -386,9 +386,11 @@ def run_schedule(roles, mode, chooser, max_steps=6000):
                     expect = body_of(roles[t], t, expect)
                     hist.append(expect)
             got = content_of(zone.nodes)
-            if got != expect or content_of(zone._versions[-1].nodes) != expect:
+            if not zone._versions:
+                fails.append(("C12/serial/no-version-left", "the zone has no version at the end"))
+            elif got != expect or content_of(zone._versions[-1].nodes) != expect:
                 fails.append(("C12/serial/final-content", f"final zone {got}, serial application in admission order {obs.admitted} gives {expect}"))
-            if zone._versions[-1].id != len(hist):
+            if zone._versions and zone._versions[-1].id != len(hist):
                 fails.append(("C12/serial/version-id", f"last version id {zone._versions[-1].id}, {len(hist) - 1} commits"))
             if zone._write_txn is not None or zone._write_event is not None or len(zone._write_waiters) or len(zone._readers):
                 fails.append(("C12/no-orphan/final-state", "write_txn/write_event/waiters/readers not empty at the end"))
